@@ -31,7 +31,7 @@ class PooledDomain(Domain):
     async_enabled = False
     subscript_may_raise = False
     unpack_may_raise = False
-    global_keys = ("brackets", "calls", "escapes", "param_uses", "destroys", "raw")
+    global_keys = ("#brackets", "#calls", "#escapes", "#param_uses", "#destroys", "#raw")
 
     def __init__(self, prog, fn, ignore_exc, outcome):
         super().__init__(prog, fn)
@@ -40,8 +40,9 @@ class PooledDomain(Domain):
 
     # ---- facts -------------------------------------------------------------------------
     def _add(self, state, key, item):
+        key = "#" + key  # internal fact keys never collide with a variable of the analysed program
         cur = state.get(key, ())
-        if key in ("param_uses", "escapes", "raw") and item in cur:
+        if key in ("#param_uses", "#escapes", "#raw") and item in cur:
             return state  # a set of observations: repeating one (e.g. in a loop) changes nothing
         return state.set(key, cur + (item,))
 
@@ -129,7 +130,7 @@ class PooledDomain(Domain):
             kws = []
             for k, v in kwargs.items():
                 kws.append((k if not k.startswith("**") else "**", ("KW", v.name) if isinstance(v, KwArgs) else _h(v)))
-            n = len(state.get("calls", ())) + 1
+            n = len(state.get("#calls", ())) + 1
             st = self._add(state, "calls", (fval.attr, tuple(flat), tuple(kws)))
             if self.outcome == "ok":
                 return [("ok", ResultOf(n), st)]
@@ -216,7 +217,7 @@ def forwarding_problems(prog, name, runs):
     if not okruns:
         return ["no path on which the delegate call succeeds"]
     for r in okruns:
-        calls = r.state.get("calls", ())
+        calls = r.state.get("#calls", ())
         if r.kind == "exc":
             problems.append("raises %s although the delegate call succeeded" % (r.value,))
             continue
@@ -265,7 +266,7 @@ def forwarding_problems(prog, name, runs):
                 problems.append("parameter `%s` is forwarded %d times" % (p.name, seen.get(p.name, 0)))
         if not isinstance(r.value, ResultOf) and not (r.value == NONE and _returns_none(cf)):
             problems.append("the delegate's result is not returned as is (returns %s)" % _v(r.value))
-        for u in r.state.get("param_uses", ()):
+        for u in r.state.get("#param_uses", ()):
             problems.append(u + ": a one-shot iterable or a consumed value no longer reaches the delegate intact")
     return list(dict.fromkeys(problems))
 
